@@ -61,12 +61,15 @@ func genReplay(g *Rng, tier string) *Plan {
 		case c == 1 || nresps == 0:
 			st := rpStep{Kind: "answer", Flow: g.Intn(nflows), RespIRT: "match", Layout: g.Intn(3), Encrypt: g.Bool(0.15)}
 			if g.Bool(0.35) {
-				st.RespIRT = Pick(g, "other", "empty", "near", "prev")
+				st.RespIRT = Pick(g, "other", "empty", "near", "prev", "resolve-id")
 			}
 			for q, nc := 0, g.PickW(1, 6, 2); q < nc; q++ { // 0, 1 or 2 subject confirmations
 				c := "match"
 				if g.Bool(0.25) {
 					c = Pick(g, "other", "empty", "near")
+				}
+				if st.RespIRT == "resolve-id" {
+					c = "resolve-id" // an IdP that stamps the artifact-resolution request's ID on everything it returns
 				}
 				st.ConfIRTs = append(st.ConfIRTs, c)
 			}
@@ -91,6 +94,7 @@ func genReplay(g *Rng, tier string) *Plan {
 // rpTransport is the artifact-resolution back-channel: it sees the ArtifactResolve the SP sends
 // and answers with the envelope the plan prescribes.
 type rpTransport struct {
+	lazy     func(resolveID string) *etree.Element // when set: the resolver mints the inner Response knowing the ArtifactResolve ID
 	respEl   *etree.Element
 	mode     string
 	prevID   string
@@ -122,7 +126,11 @@ func (t *rpTransport) RoundTrip(r *http.Request) (*http.Response, error) {
 	case "near":
 		irt = id + "0"
 	}
-	body := wrapArtifactResponse(t.respEl, "id-art", irt, idpEntity, saml.StatusSuccess, time.Now(), nil)
+	inner := t.respEl
+	if t.lazy != nil {
+		inner = t.lazy(id)
+	}
+	body := wrapArtifactResponse(inner, "id-art", irt, idpEntity, saml.StatusSuccess, time.Now(), nil)
 	return &http.Response{StatusCode: 200, Status: "200 OK", Body: io.NopCloser(bytes.NewReader(body)), Header: http.Header{}, Request: r}, nil
 }
 
@@ -157,12 +165,15 @@ func execReplay(t *testing.T, p *Plan) *Result {
 		irt      string
 		confIRTs []string
 		el       *etree.Element
+		spec     RespSpec
 		at       time.Time
 		n        int
 	}
 	var flows []*flow
 	var resps []*resp
 	begin := time.Now()
+	// an application that keeps ONE slice of outstanding IDs and hands that very slice to the library each time
+	var appLive []string
 
 	for si, raw := range p.Steps {
 		st := decode[rpStep](raw)
@@ -174,10 +185,17 @@ func execReplay(t *testing.T, p *Plan) *Result {
 				panic(err)
 			}
 			flows = append(flows, &flow{id: req.ID})
+			appLive = append(appLive, req.ID)
 			res.logf("step %d start -> flow %d", si, len(flows)-1)
 		case "retire":
 			if st.Flow < len(flows) {
 				flows[st.Flow].retired = true
+				for i, id := range appLive {
+					if id == flows[st.Flow].id {
+						appLive = append(appLive[:i], appLive[i+1:]...)
+						break
+					}
+				}
 				res.logf("step %d retire flow %d", si, st.Flow)
 			}
 		case "answer":
@@ -203,6 +221,8 @@ func execReplay(t *testing.T, p *Plan) *Result {
 						return flows[st.Flow-1].id
 					}
 					return "id-of-nobody"
+				case "resolve-id":
+					return "\x00resolve-id" // placeholder: replaced by the ArtifactResolve ID when the resolver answers
 				}
 				return "" // empty / absent
 			}
@@ -217,6 +237,15 @@ func execReplay(t *testing.T, p *Plan) *Result {
 				a.Confs = append(a.Confs, ConfSpec{NotOnOrAfter: i64(3_600_000), Recipient: spBase + "/saml/acs", InResponseTo: v})
 			}
 			spec.Assertions = []AsrtSpec{a}
+			r.spec = spec
+			if st.RespIRT == "resolve-id" {
+				// on the browser paths there is no resolve ID: the placeholder is just a foreign ID
+				spec = c04WithResolveID(spec, "id-no-artifact-resolution-happened")
+				r.irt = spec.InResponseTo
+				for i := range r.confIRTs {
+					r.confIRTs[i] = spec.InResponseTo
+				}
+			}
 			r.el = BuildResponseEl(&spec, time.Now())
 			resps = append(resps, r)
 			res.logf("step %d answer flow %d resp-irt=%s conf-irts=%v -> resp %d", si, st.Flow, st.RespIRT, st.ConfIRTs, len(resps)-1)
@@ -262,19 +291,25 @@ func execReplay(t *testing.T, p *Plan) *Result {
 					set = append(set, fl.id)
 				}
 			}
+			// what the library is handed: for the "live" set the application's own long-lived slice (not a copy)
+			passed := append([]string(nil), set...)
+			if st.Set == "live" {
+				passed = appLive
+			}
 			in := func(id string) bool {
-				for _, s := range set {
+				for _, s := range set { // the oracle judges by what the application MEANT to declare
 					if s == id {
 						return true
 					}
 				}
 				return false
 			}
+			irt, confIRTs := r.irt, r.confIRTs
 			// ---- oracle from the statement
-			respOK := in(r.irt)
+			respOK := in(irt) && !strings.HasPrefix(irt, "\x00")
 			confOK := true
-			for _, c := range r.confIRTs {
-				if !in(c) {
+			for _, c := range confIRTs {
+				if !in(c) || strings.HasPrefix(c, "\x00") {
 					confOK = false
 				}
 			}
@@ -298,21 +333,29 @@ func execReplay(t *testing.T, p *Plan) *Result {
 
 			var as *saml.Assertion
 			var err error
-			tr.respEl, tr.mode = r.el, st.ArtIRT
+			tr.respEl, tr.mode, tr.lazy = r.el, st.ArtIRT, nil
+			if st.Entry == "artifact" && strings.HasPrefix(r.spec.InResponseTo, "\x00") {
+				spec := r.spec
+				tr.lazy = func(resolveID string) *etree.Element {
+					s2 := c04WithResolveID(spec, resolveID)
+					return BuildResponseEl(&s2, time.Now())
+				}
+				res.probe("inner-response-echoes-resolve-id")
+			}
 			pan := guard(func() {
 				switch st.Entry {
 				case "xml":
-					as, err = spv.ParseXMLResponse(elBytes(r.el.Copy()), set, spv.AcsURL)
+					as, err = spv.ParseXMLResponse(elBytes(r.el.Copy()), passed, spv.AcsURL)
 				case "post":
 					form := url.Values{"SAMLResponse": {base64.StdEncoding.EncodeToString(elBytes(r.el.Copy()))}}
 					hr := httptest.NewRequest("POST", spv.AcsURL.String(), strings.NewReader(form.Encode()))
 					hr.Header.Set("Content-Type", formCT)
 					_ = hr.ParseForm()
-					as, err = spv.ParseResponse(hr, set)
+					as, err = spv.ParseResponse(hr, passed)
 				case "artifact":
 					hr := httptest.NewRequest("GET", spv.AcsURL.String()+"?SAMLart=AAQAAartifact", nil)
 					_ = hr.ParseForm()
-					as, err = spv.ParseResponse(hr, set)
+					as, err = spv.ParseResponse(hr, passed)
 					tr.prevID = tr.seenID
 				}
 			})
@@ -376,6 +419,24 @@ func execReplay(t *testing.T, p *Plan) *Result {
 	}
 	res.SimMillis = time.Since(begin).Milliseconds()
 	return res
+}
+
+// c04WithResolveID replaces the resolve-ID placeholder in every InResponseTo of spec.
+func c04WithResolveID(spec RespSpec, id string) RespSpec {
+	out := spec
+	if strings.HasPrefix(out.InResponseTo, "\x00") {
+		out.InResponseTo = id
+	}
+	out.Assertions = append([]AsrtSpec(nil), spec.Assertions...)
+	for i := range out.Assertions {
+		out.Assertions[i].Confs = append([]ConfSpec(nil), spec.Assertions[i].Confs...)
+		for j := range out.Assertions[i].Confs {
+			if strings.HasPrefix(out.Assertions[i].Confs[j].InResponseTo, "\x00") {
+				out.Assertions[i].Confs[j].InResponseTo = id
+			}
+		}
+	}
+	return out
 }
 
 func simplifyReplay(p *Plan) []*Plan {
